@@ -1,10 +1,71 @@
-/- Line-protocol handlers for C20 (placeholder until the property is built). -/
-import PandoraModel.Model.Basic
+/- Line-protocol handlers for the margins model (C20). -/
+import PandoraModel.Model.Margins
 
 namespace Pandora.Driver.C20
 open Lean (Json)
+open Pandora Pandora.Margins
 
-def handle (op : String) (_j : Json) : Except String Json :=
-  throw s!"unknown op {op}"
+def m4ToJson (m : M4) : Json := Json.arr #[intToJson m.left, intToJson m.up, intToJson m.right, intToJson m.down]
+
+def m4OfJson (j : Json) : Except String M4 := do
+  match ← listOfJson intOfJson j with
+  | [a, b, c, d] => pure ⟨a, b, c, d⟩
+  | _ => throw "bad margins"
+
+def dictToJson (d : MDict) : Json := listToJson (fun e => Json.arr #[Json.str e.1, m4ToJson e.2]) d
+
+def stepOfJson (j : Json) : Except String StepCfg := do
+  let name ← field j "name" >>= strOfJson
+  let method ← strOfJson (fieldD j "method" (Json.str ""))
+  let windowSize ← intOfJson (fieldD j "window_size" (intToJson 5))
+  let filterSize ← intOfJson (fieldD j "filter_size" (intToJson 3))
+  let sigmaSpace ← ratOfJson (fieldD j "sigma_space" (intToJson 6))
+  let stepParam ← intOfJson (fieldD j "step" (intToJson 1))
+  return { name, method, windowSize, filterSize, sigmaSpace, stepParam }
+
+def globalToJson (g : Global) : Json :=
+  mkObj [("cumulative", dictToJson g.cumulatives), ("non_cumulative", dictToJson g.nonCumulatives),
+         ("global", m4ToJson g.globalMargins)]
+
+/-- margins reported after `check_conf` of a pipeline on a fresh machine -/
+def check (j : Json) : Except String Json := do
+  let rows ← field j "rows" >>= intOfJson
+  let cols ← field j "cols" >>= intOfJson
+  let rows2 ← intOfJson (fieldD j "rows2" (intToJson rows))
+  let cols2 ← intOfJson (fieldD j "cols2" (intToJson cols))
+  let steps ← field j "steps" >>= listOfJson stepOfJson
+  let spec := mkObj [
+    ("cumulative", dictToJson (expectedEntries .cumulative rows cols steps 1)),
+    ("non_cumulative", dictToJson (expectedEntries .nonCumulative rows cols steps 1)),
+    ("global", m4ToJson (expectedGlobal (expectedEntries .cumulative rows cols steps 1)
+                                         (expectedEntries .nonCumulative rows cols steps 1)))]
+  match checkMargins rows cols rows2 cols2 steps {} with
+  | none => return mkObj [("ok", Json.bool false), ("spec", spec)]
+  | some s => return mkObj [("ok", Json.bool true), ("margins", globalToJson s.g), ("spec", spec)]
+
+/-- a sequence of GlobalMargins API calls: ["cum"|"non", key, [l,u,r,d]] -/
+def ops (j : Json) : Except String Json := do
+  let rows ← field j "ops" >>= listOfJson pure
+  let mut g : Global := {}
+  let mut outs : Array Json := #[]
+  for r in rows do
+    match r with
+    | Json.arr #[Json.str kind, Json.str key, mj] =>
+      let m ← m4OfJson mj
+      if !m.valid then
+        outs := outs.push (Json.str "ValueError")
+      else
+        match (if kind == "cum" then g.addCumulative key m else g.addNonCumulative key m) with
+        | none => outs := outs.push (Json.str "KeyError")
+        | some g' => g := g'; outs := outs.push (Json.str "ok")
+    | _ => throw "bad op"
+  return mkObj [("results", Json.arr outs), ("margins", globalToJson g),
+                ("spec_global", m4ToJson (expectedGlobal g.cumulatives g.nonCumulatives))]
+
+def handle (op : String) (j : Json) : Except String Json :=
+  match op with
+  | "C20.check" => check j
+  | "C20.ops" => ops j
+  | _ => throw s!"unknown op {op}"
 
 end Pandora.Driver.C20
